@@ -148,6 +148,18 @@ def run(ctx):
             cases.append(j)
             nc += 1
     ctx.note("confusable_sibling_trees", nc)
+    rt = ctx.tlc("MC_HedRules", "MC_HedRules_tl.cfg", workers=1, label="<= 2 steps from the Delay / Duration constructs, second tags "
+                 "of the same name with another value", timeout=3000)
+    ntl = 0
+    for j in rt.json_lines:
+        k = json.dumps([j["par"], j["kind"]])
+        if k not in seen:
+            seen.add(k)
+            if "TAG_EXPRESSION_REPEATED" in j["codes"] and "TAG_EMPTY" not in j["codes"]:
+                j["dup"] = True
+            cases.append(j)
+            ntl += 1
+    ctx.note("delay_duration_neighbourhood_trees", ntl)
     versions = [v for v, _ in facts.bundled()]
     jobs = []
     for vi, v in enumerate(versions):
